@@ -236,15 +236,40 @@ impl Ldap {
             self.msgmap.lock().expect("msgmap mutex (op not sent)").1.remove(&id);
             return Err(LdapError::from(e));
         }
+        // A request sent in the very moment the connection task drops its end of the channel
+        // may be accepted without ever being read: it stays in the channel, which only goes
+        // away with its last sender - this handle. Nobody will answer it; seeing the channel
+        // closed is then all that can end the wait.
+        let op_tx = self.tx.clone();
+        let answer = async move {
+            tokio::select! {
+                biased;
+                res = rx => res,
+                _ = op_tx.closed() => {
+                    let (gone, never) = oneshot::channel();
+                    drop(gone);
+                    never.await
+                }
+            }
+        };
         let response = if let Some(timeout) = self.timeout.take() {
-            let res = time::timeout(timeout, rx).await;
+            let res = time::timeout(timeout, answer).await;
             if res.is_err() {
                 self.id_scrub_tx.send(self.last_id)?;
             }
             res?
         } else {
-            rx.await
-        }?;
+            answer.await
+        };
+        let response = match response {
+            Ok(response) => response,
+            Err(e) => {
+                // No response will come: the ID is free again (the connection task may have
+                // cleared its table before this ID was taken).
+                self.msgmap.lock().expect("msgmap mutex (no response)").1.remove(&id);
+                return Err(LdapError::from(e));
+            }
+        };
         let ldap_ext = LdapResultExt::try_from_tag(response.0).ok_or_else(|| {
             LdapError::from(io::Error::new(
                 io::ErrorKind::InvalidData,
